@@ -236,7 +236,22 @@ def stage4(work_dir, resume, layer):
     import src.multimap_resolver as mr
     saved = (dp.collect_reads_in_parallel, dp.pysam, dp.__dict__.get("open"))
     dp.collect_reads_in_parallel = lambda sample, chr_id, args: ({"grpA", "NA"}, stats.EnumStats(), ["read_%d" % i for i in range(N_READS)])
-    dp.pysam = Obj(AlignmentFile=lambda *a, **k: Obj(unmapped=0))
+    class Bam:
+        """pysam.AlignmentFile as far as collect_reads uses it; the experiment's BAM holds 3 unmapped reads"""
+        unmapped = 3
+
+        def __init__(self, *a, **k):
+            pass
+
+        def close(self):
+            pass
+
+        def __enter__(self):
+            return self
+
+        def __exit__(self, *a):
+            return False
+    dp.pysam = Obj(AlignmentFile=Bam)
     dp.open = layer.open
 
     class Quick:
@@ -261,7 +276,8 @@ def stage4(work_dir, resume, layer):
         sample = Obj(out_raw_file=os.path.join(work_dir, "smp.save"), file_list=[["x.bam"]])
         this.collect_reads(sample)
         total, polya, groups = this.load_read_info(sample.out_raw_file)
-        return {"total_assignments": total, "polya": polya, "groups": sorted(groups)}
+        return {"total_assignments": total, "polya": polya, "groups": sorted(groups),
+                "unaligned_reads": this.alignment_stat_counter.stats_dict[dp.AlignmentType.unaligned]}
     finally:
         dp.collect_reads_in_parallel, dp.pysam = saved[0], saved[1]
         dp.BasicReadAssignmentLoader = saved_loader
